@@ -192,6 +192,12 @@ NOT_YET = {
 RECORDED = {"C01", "C02", "C03", "C04", "C05", "C06", "C08", "C10", "C11", "C13", "C14", "C15", "C16", "C17", "C18", "C19"}   # keep in step with check.RECORDED
 
 
+APALACHE = {
+    "C10": "The limb arithmetic the trace module relies on is also proved equal to integer arithmetic at the real base 65536 by Apalache (symbolic, spec/apalache/LimbLemma.tla).",
+    "C13": "The bit algebra SubW that judges containment at full size is also proved to be exactly set containment at W = 32 by Apalache (symbolic, sound for every address and complete by an explicit witness, spec/apalache/WildLemma.tla).",
+}
+
+
 def main():
     props = [json.loads(l) for l in open(os.path.join(VERIF, "properties.jsonl"))]
     checks, na = [], []
@@ -199,6 +205,8 @@ def main():
         pid = p["id"]
         if pid in CHECKS:
             cat, tech, text, ref = CHECKS[pid]
+            if pid in APALACHE:
+                text += " " + APALACHE[pid]
             if pid in RECORDED:
                 tech += "; executions recorded from the repository's own test-suite (pytest plugin harness/pytrace.py, no source change) validated by the same trace modules"
                 text += (" In addition the calls the repository's own 327 tests make (Ace constructions, shadow_of queries, "
